@@ -11,7 +11,7 @@ use std::collections::{HashMap, HashSet, VecDeque};
 
 #[derive(Copy, Clone, Debug, PartialEq, Eq)]
 pub(crate) enum Act { SvcBig, SvcTiny, Wc, AckAll, AckOne, Flush }
-pub(crate) const ACTS: [Act; 5] = [Act::SvcBig, Act::SvcTiny, Act::Wc, Act::AckAll, Act::AckOne];
+pub(crate) const ACTS: [Act; 6] = [Act::SvcBig, Act::SvcTiny, Act::Wc, Act::AckAll, Act::AckOne, Act::Flush];
 
 fn topic_of(p: &MqttPacket) -> Option<String> {
     match p {
